@@ -389,7 +389,8 @@ def build(tier):
                         'per-task harness gboost_tune_task are machine-checked, the step "the object any_cast reads in the averaging block is the third result of that task" is by reading',
                         'averaging lemma: the identification of a learner\'s CONTRIBUTION at a cell with "the table row its do_predict adds" (C10) and of scale(v) with "contribution * v" is stated as hypotheses P1-P4 of the lemma, not derived mechanically; '
                         'floating-point rounding of the average (double as Real)',
-                        'tensor_t::mean / stdev (Eigen reductions) and nano::percentile (C20) are used through assumed contracts'],
+                        'tensor_t::mean / stdev (Eigen reductions) and nano::percentile (C20) are used through assumed contracts; observation outside the statement (no obligation): tensor_t::stdev(), documented as the sample '
+                        'standard deviation, returns sqrt(population variance / (n - 1)) = the standard error of the mean, so stats_t::m_stdev holds that (specs/C11/FINDING_stdev_is_standard_error.md, native demonstration)'],
         'assumptions': ['gboost::mean_error is a deterministic function of (errors, samples) (assumed contract)',
                         'gboost parameters inside their registered domains: 10 <= max_rounds <= 10^6, 1 <= patience <= 1000 (gboost_model_t constructor; C19)',
                         'history lemma: 1 <= patience <= 2^62 and at most 2^62 observations (so that round + patience does not wrap in size_t); the initial state of the monitor counts as an accepted improvement at round 0 '
